@@ -268,6 +268,7 @@ type qx struct {
 	overflow   bool
 	closureFns []*ssa.Function
 	memberTab  map[*ssa.Global]string // [N]bool tables built at init from a constant string: tab[K[i]] = true
+	valueTab   map[*ssa.Global]*[256]int64 // [256]integer tables built at init by constant stores (see builtTables)
 	libPreds   map[string]*ssa.Function // stand-ins for the library's whole-string tests (strings.ContainsAny(s, "…"), …), by callee and constant
 	libName    map[*ssa.Function]string
 }
@@ -402,12 +403,30 @@ func (q *qx) buildAlphabet(roots []*ssa.Function) {
 		})
 	}
 	q.memberTab = memberTables(q.pkg)
+	q.valueTab = builtTables(q.pkg)
 	for _, fn := range cl {
 		allInstrs(fn, func(in ssa.Instruction) {
 			if ia, ok := in.(*ssa.IndexAddr); ok {
 				if g, ok := ia.X.(*ssa.Global); ok {
 					if k, ok := q.memberTab[g]; ok {
 						sets = append(sets, k)
+					}
+					if tab, ok := q.valueTab[g]; ok {
+						// one set per distinct non-zero value of the table
+						byVal := map[int64][]byte{}
+						for b := 0; b < 256; b++ {
+							if tab[b] != 0 {
+								byVal[tab[b]] = append(byVal[tab[b]], byte(b))
+							}
+						}
+						var vs []int64
+						for v := range byVal {
+							vs = append(vs, v)
+						}
+						sort.Slice(vs, func(i, j int) bool { return vs[i] < vs[j] })
+						for _, v := range vs {
+							sets = append(sets, string(byVal[v]))
+						}
 					}
 				}
 			}
@@ -943,6 +962,17 @@ func (q *qx) step(st *qstate) []*qstate {
 					}
 					if onlyRead {
 						return q.readInputByte(st, f, x, ia.X, ia.Index)
+					}
+				}
+			}
+			// a read of a value table built at init by constant stores
+			if ia, ok := x.X.(*ssa.IndexAddr); ok {
+				if g, ok := ia.X.(*ssa.Global); ok {
+					if tab, ok := q.valueTab[g]; ok {
+						if iv := q.eval(f, ia.Index); (iv.k == qInt || iv.k == qByte) && iv.i >= 0 && iv.i < 256 {
+							f.env[x] = qval{k: qInt, i: tab[iv.i]}
+							return one
+						}
 					}
 				}
 			}
@@ -2167,6 +2197,171 @@ func memberTables(pkg *ssa.Package) map[*ssa.Global]string {
 		})
 		if okShape && nStores == 1 && k != "" {
 			out[g] = k
+		}
+	})
+	return out
+}
+
+// builtTables recognises package variables of the form
+//
+//	var tab = func() (t [256]uint8) { for i := … len(K) … { t[K[i]] = c1 }; t[k2] = c2; return t }()
+//
+// (or initialised by a call of a named function of that shape): an integer array of 256 entries filled at package
+// initialisation by stores of constants at constant positions or at the bytes of a constant string, applied in
+// source order.  The table is READ OFF these constants; nothing is run.  Anything else in the builder (another
+// store, a call other than len, a value that is not a constant) and the variable is not recognised.  A store at
+// K[i] is taken to cover all of K only when i is a loop variable compared with len(K) (or with 0 for a downward
+// loop) and stepped by one.
+func builtTables(pkg *ssa.Package) map[*ssa.Global]*[256]int64 {
+	out := map[*ssa.Global]*[256]int64{}
+	if pkg == nil {
+		return out
+	}
+	initFn := pkg.Func("init")
+	if initFn == nil {
+		return out
+	}
+	allInstrs(initFn, func(in ssa.Instruction) {
+		st, ok := in.(*ssa.Store)
+		if !ok {
+			return
+		}
+		g, ok := st.Addr.(*ssa.Global)
+		if !ok {
+			return
+		}
+		arr, ok := g.Type().(*types.Pointer).Elem().Underlying().(*types.Array)
+		if !ok || arr.Len() != 256 {
+			return
+		}
+		eb, ok := arr.Elem().Underlying().(*types.Basic)
+		if !ok || eb.Info()&types.IsInteger == 0 {
+			return
+		}
+		call, ok := st.Val.(*ssa.Call)
+		if !ok {
+			return
+		}
+		var f *ssa.Function
+		switch v := call.Call.Value.(type) {
+		case *ssa.Function:
+			f = v
+		case *ssa.MakeClosure:
+			f, _ = v.Fn.(*ssa.Function)
+		}
+		if f == nil || f.Blocks == nil || len(f.Params) != 0 || len(f.FreeVars) != 0 {
+			return
+		}
+		var tab [256]int64
+		okShape := true
+		var local *ssa.Alloc
+		for _, b := range f.Blocks { // block order is source order for a sequence of loops and statements
+			for _, in2 := range b.Instrs {
+				switch y := in2.(type) {
+				case *ssa.Store:
+					ia, isIA := y.Addr.(*ssa.IndexAddr)
+					if !isIA {
+						// the zero initialisation of the named result
+						if al, isAlloc := y.Addr.(*ssa.Alloc); isAlloc {
+							if k, isK := y.Val.(*ssa.Const); isK && k.Value == nil {
+								continue
+							}
+							// the named result spilled onto itself before the return
+							if ld, isLd := y.Val.(*ssa.UnOp); isLd && ld.Op == token.MUL && ld.X == ssa.Value(al) {
+								continue
+							}
+						}
+						okShape = false
+						continue
+					}
+					al, isAlloc := ia.X.(*ssa.Alloc)
+					if !isAlloc || (local != nil && local != al) {
+						okShape = false
+						continue
+					}
+					local = al
+					v, isK := constInt(y.Val)
+					if !isK {
+						okShape = false
+						continue
+					}
+					idx := ia.Index
+					if c2, ok := idx.(*ssa.Convert); ok {
+						idx = c2.X
+					}
+					if k, isK := constInt(idx); isK {
+						if k < 0 || k > 255 {
+							okShape = false
+							continue
+						}
+						tab[k] = v
+						continue
+					}
+					var strX, pos ssa.Value
+					switch lk := idx.(type) {
+					case *ssa.Lookup:
+						strX, pos = lk.X, lk.Index
+					case *ssa.Index:
+						strX, pos = lk.X, lk.Index
+					}
+					ks, isK2 := strX.(*ssa.Const)
+					if strX == nil || !isK2 || ks.Value == nil || ks.Value.Kind() != constant.String {
+						okShape = false
+						continue
+					}
+					K := constant.StringVal(ks.Value)
+					// the position runs over all of K
+					ph, isPhi := pos.(*ssa.Phi)
+					if !isPhi {
+						okShape = false
+						continue
+					}
+					covers := false
+					for _, r := range referrersOf(ph) {
+						bo, ok := r.(*ssa.BinOp)
+						if !ok {
+							continue
+						}
+						other := bo.Y
+						if bo.Y == ssa.Value(ph) {
+							other = bo.X
+						}
+						if k, ok := constInt(other); ok && (k == int64(len(K)) || k == 0) && negOp(bo.Op) != token.ILLEGAL {
+							covers = true
+						}
+						if ln, ok := isBuiltinCall(other, "len"); ok && ln.Call.Args[0] == strX && negOp(bo.Op) != token.ILLEGAL {
+							covers = true
+						}
+					}
+					step := false
+					for i, e := range ph.Edges {
+						if ph.Block().Dominates(ph.Block().Preds[i]) {
+							if bo, ok := e.(*ssa.BinOp); ok && (bo.Op == token.ADD || bo.Op == token.SUB) && bo.X == ssa.Value(ph) && isConstInt(bo.Y, 1) {
+								step = true
+							}
+						} else if k, ok := constInt(e); !ok || !(k == 0 || k == int64(len(K))-1) {
+							covers = false
+						}
+					}
+					if !covers || !step {
+						okShape = false
+						continue
+					}
+					for i := 0; i < len(K); i++ {
+						tab[K[i]] = v
+					}
+				case *ssa.Call:
+					if b, ok := y.Call.Value.(*ssa.Builtin); !ok || b.Name() != "len" {
+						okShape = false
+					}
+				case *ssa.MapUpdate, *ssa.Go, *ssa.Defer, *ssa.Send:
+					okShape = false
+				}
+			}
+		}
+		if okShape && local != nil {
+			t := tab
+			out[g] = &t
 		}
 	})
 	return out
